@@ -29,6 +29,7 @@ RULE = (
     "stratify over element types. distinct = sha1 of the serialised case."
     ' point_location_1d / location_types_1d: SEG2..SEG5 lines anywhere in space, polynomial of the abscissa evaluated at constructed abscissae (non-trivial = non-constant polynomial and an interior query). Normals: the normalize=False route is compared with the first one at every Gauss point.'
     ' Round 8: integer_coords enumerates hand-written lattice meshes given with an integer coordinate dtype x motion; the enumerated location tables are held to 1e-10 of the field scale.'
+    ' Round 9: projector_points enumerates old type x new type x number of additionalPoints of the new mesh.'
 )
 ASSUMPTIONS = [
     "exact measure/centroid/perimeter/outward normals come from the recipe (shoelace, prism formula, vlib.c09_geom), the "
